@@ -15,7 +15,7 @@ import random
 import re
 import unicodedata
 
-from vf.model import OPS, PLAIN, RESERVED
+from vf.model import OPS, PLAIN, RESERVED, zone_lines
 
 ALIAS = {"→": "->", "⊕": "+", "⧺": "~", "⇌": "vs", "∧": "&", "∨": "|", "§": "#"}
 WRONG_CASE = {"True", "TRUE", "False", "FALSE", "Null", "NULL"}
@@ -87,8 +87,7 @@ def c_holo(V) -> str:
 
 def _c_zone(Z, pad: str, out: list):
     out.append(pad + Z["fence"] + (Z["tag"] or ""))
-    if Z["content"] != "":
-        out.append(Z["content"])
+    out.extend(zone_lines(Z))
     out.append(pad + Z["fence"])
 
 
@@ -380,8 +379,8 @@ class Lenient:
         o = self.o
         self.count_protected(Z["content"])
         o.w(pad + Z["fence"] + (Z["tag"] or "") + "\n")
-        if Z["content"] != "":
-            o.w(Z["content"] + "\n")
+        for ln in zone_lines(Z):
+            o.w(ln + "\n")
         o.w(pad + Z["fence"] + "\n")
 
     def width(self) -> int:
